@@ -873,8 +873,22 @@ impl Prioritize {
                             }))
                         }
                         Some(Frame::PushPromise(pp)) => {
-                            let mut pushed =
-                                stream.store_mut().find_mut(&pp.promised_id()).unwrap();
+                            let mut pushed = match stream.store_mut().find_mut(&pp.promised_id()) {
+                                Some(pushed) => pushed,
+                                None => {
+                                    // The promised stream was closed (e.g. the
+                                    // peer's GOAWAY excluded it) and released by
+                                    // the application before its promise could
+                                    // be written: there is nothing to promise.
+                                    if !stream.pending_send.is_empty()
+                                        || stream.state.is_scheduled_reset()
+                                    {
+                                        self.pending_send.push(&mut stream);
+                                    }
+                                    counts.transition_after(stream, is_pending_reset);
+                                    continue;
+                                }
+                            };
                             pushed.is_pending_push = false;
                             // Transition stream from pending_push to pending_open
                             // if possible
